@@ -137,6 +137,13 @@ def interpret_paths(cmds, fname, actual_args, extra_vars, isdir):
                     if not dup:
                         keep.append(e)
                 env.vars[var] = keep
+            elif name == "get_filename_component" and len(args) >= 3:
+                # get_filename_component(<var> <path> <mode>): an uninterpreted function of the path per mode -- whatever it
+                # computes, the result is not known to equal the path as given
+                (a_,) = env.expand(*args[1])
+                mode = args[2][1]
+                fn = Function("get_filename_component_" + mode, StringSort(), StringSort())
+                env.vars[args[0][1]] = [fn(as_arg(a_))]
             elif name == "execute_process":
                 KW = {"COMMAND", "OUTPUT_VARIABLE", "ERROR_VARIABLE", "RESULT_VARIABLE", "COMMAND_ERROR_IS_FATAL", "WORKING_DIRECTORY"}
                 opts = {}; cmd = []; mode = None
@@ -311,11 +318,15 @@ def replay_cmake(work, vals, isd, k):
     base = os.path.join(work, "cmk_replay")
     shutil.rmtree(base, ignore_errors=True)
     os.makedirs(base)
+    # the input is reached through a symbolic link (an ordinary situation: versioned directories, build trees), so that a
+    # change which resolves / rewrites the path before forwarding it shows up under the real cmake too
+    real = os.path.join(base, "real_in")
     inp = os.path.join(base, "in")
     if isd:
-        os.makedirs(inp)
+        os.makedirs(real)
     else:
-        open(inp, "w").write("")
+        open(real, "w").write("")
+    os.symlink(real, inp)
     extra = [vals["x%d" % j] for j in range(k)]
     argv, rc = run_cmake(work, inp, vals["output"], extra)
     good = spec_concrete(argv, inp, vals["output"], extra, isd)
